@@ -83,10 +83,14 @@ func (ch *ConnectionHandler) acceptStream() {
 		stream = streams.NewNamedConnection(stream, stream.RemoteAddr().String())
 		log.Debugf("[Server] New logical connection accepted: %v", stream)
 
-		if err = ch.multiplexToUpstream(stream); err != nil {
-			log.WithError(err).Errorf("Error selecting multichannel stream: %v", err)
-			streams.TryClose(stream)
-		}
+		// Serve every logical connection on its own so that the loop returns to accepting
+		// the next stream straight away instead of waiting for this one to finish.
+		go func(stream net.Conn) {
+			if err := ch.multiplexToUpstream(stream); err != nil {
+				log.WithError(err).Errorf("Error selecting multichannel stream: %v", err)
+				streams.TryClose(stream)
+			}
+		}(stream)
 	}
 }
 
